@@ -111,12 +111,21 @@ impl Prop for C18 {
             _ => b"j\xc3\xb6n".to_vec(),
         };
         conv.hs = Handshake {
-            kind: HsKind::V41 { caps: CAP_LONG_PASSWORD | CAP_PROTOCOL_41 | CAP_SSL | CAP_SECURE_CONNECTION | CAP_MULTI_RESULTS, max_packet: 1 << 24, charset: 0x21, user, tail: vec![0] },
+            // the response sent inside the TLS session: its mask usually repeats the SSL bit of the
+            // SSL request, but nothing obliges a client to (every mask is a legal mask)
+            kind: HsKind::V41 {
+                caps: CAP_LONG_PASSWORD | CAP_PROTOCOL_41 | CAP_SECURE_CONNECTION | CAP_MULTI_RESULTS | (if g.chance(3, 4) { CAP_SSL } else { 0 }) | (if g.chance(1, 3) { g.raw() & CAP_FORMAT_NEUTRAL } else { 0 }),
+                max_packet: 1 << 24,
+                charset: 0x21,
+                user,
+                tail: vec![0],
+            },
             seq: 2,
             user_pad: 0,
             tail_pad: 0,
             reserved: if g.chance(1, 5) { g.bytes(23) } else { vec![] },
         };
+        vary_announcements(g, &mut conv.hs);
         // one in eight: the request comes in the pre-4.1 layout (SSL bit in a 16-bit mask)
         let sslreq_320_user = if g.chance(1, 8) { Some(if g.coin() { b"legacy".to_vec() } else { (0..g.usize_in(0, 8)).map(|_| 1 + g.below(255) as u8).collect() }) } else { None };
         if sslreq_320_user.is_some() && g.coin() {
@@ -241,6 +250,9 @@ impl Prop for C18 {
         }
         if case.client_cert && case.server_asks_client_cert {
             ex.class("client-certificate-presented");
+        }
+        if caps & CAP_SSL == 0 {
+            ex.class("encrypted-response-without-the-ssl-bit");
         }
         ex.class(if c.lockstep { "lock-step" } else { "pipelined" });
         if log.decrypted.len() > 65_536 {
